@@ -73,6 +73,7 @@ type fakeCluster struct {
 type faultEv struct {
 	shard int64
 	at    time.Duration
+	until time.Duration // a stalled stream keeps everything queued behind it waiting until then
 }
 
 func (fc *fakeCluster) shard(id int64) *fakeShard {
@@ -117,7 +118,16 @@ func fingerprint(shard int64, m interface{ MarshalVT() ([]byte, error) }) uint64
 
 func (fc *fakeCluster) noteFault(shard int64) {
 	fc.mu.Lock()
-	fc.faults = append(fc.faults, faultEv{shard, fc.r.Now()})
+	fc.faults = append(fc.faults, faultEv{shard, fc.r.Now(), fc.r.Now()})
+	fc.mu.Unlock()
+	fc.r.Count("server_faults_injected", 1)
+}
+
+// noteStall records a fault that lasts: the server handles a stream's requests one after the other, so
+// every request that arrives on it while an answer is being held back waits as well.
+func (fc *fakeCluster) noteStall(shard int64, d time.Duration) {
+	fc.mu.Lock()
+	fc.faults = append(fc.faults, faultEv{shard, fc.r.Now(), fc.r.Now() + d})
 	fc.mu.Unlock()
 	fc.r.Count("server_faults_injected", 1)
 }
@@ -309,9 +319,10 @@ func (n *fakeNode) WriteStream(st proto.OxiaClient_WriteStreamServer) error {
 		if n.fc.stallPct > 0 && n.fc.decide(fp, "stall") < n.fc.stallPct {
 			// the answer arrives after the client has given up on this request; the stream stays
 			// healthy and later batches on it must still get their own answers
-			n.fc.noteFault(id)
+			d := n.fc.reqTimeout + time.Duration(n.fc.decide(fp, "stall-ms")*20+200)*time.Millisecond
+			n.fc.noteStall(id, d)
 			n.fc.r.Count("server_write_answers_after_client_timeout", 1)
-			time.Sleep(n.fc.reqTimeout + time.Duration(n.fc.decide(fp, "stall-ms")*20+200)*time.Millisecond)
+			time.Sleep(d)
 			n.fc.noteFault(id)
 		}
 		if err := st.Send(res); err != nil {
@@ -540,7 +551,7 @@ func runC20(r *Run) {
 		fc.mu.Lock()
 		defer fc.mu.Unlock()
 		for _, f := range fc.faults {
-			if f.at >= op.start-reqTimeout && f.at <= end {
+			if f.until >= op.start-reqTimeout && f.at <= end {
 				for _, s := range op.shards {
 					if s == f.shard {
 						return true
